@@ -87,12 +87,13 @@ type solveOpts struct {
 	confirm  bool // thorough: a second solver must agree on unsat where it can answer
 	tmp      string
 	keep     bool
+	retried  bool
 }
 
 // discharge decides one obligation.
 func discharge(o *Obligation, idx int, opt solveOpts) {
 	// stage 0: safety obligations are usually decided by a handful of local facts
-	if !o.ExpectSat && (o.Kind == "nopanic" || o.Kind == "pre") {
+	if !o.ExpectSat && !strings.Contains(o.Goal, "(forall") && !strings.Contains(o.Goal, "(exists") {
 		tq := o.queryMode(false, true)
 		tf := filepath.Join(opt.tmp, fmt.Sprintf("t%05d.smt2", idx))
 		if os.WriteFile(tf, []byte(tq), 0o644) == nil {
@@ -207,6 +208,25 @@ func discharge(o *Obligation, idx int, opt solveOpts) {
 			os.Remove(mf)
 		}
 	default:
+		// a timeout is not a verdict about the code: one more attempt with a
+		// different seed and twice the budget before the obligation counts as
+		// undischarged
+		if !opt.retried {
+			o2 := opt
+			o2.retried = true
+			o2.timeoutS = opt.timeoutS * 2
+			o2.seed = opt.seed + 17
+			r := raceSolvers(file, solvers, o2.timeoutS, o2.seed)
+			o.Time += r.time
+			if r.status == "unsat" {
+				o.Status, o.Solver = "proved", r.solver+"(retry)"
+				return
+			}
+			if r.status == "sat" {
+				o.Status, o.Output, o.Solver = "failed", "sat", r.solver
+				return
+			}
+		}
 		o.Status = "unknown"
 		o.Output = res.status + ": " + firstLines(res.output, 5)
 	}
